@@ -19,7 +19,7 @@ cp out/mut$N.diff /verif/seeded/$NAME/patch.diff; cp out/demo$N.py /verif/seeded
 cd $WT && git apply out/mut$N.diff || { echo "APPLY FAILED"; exit 9; }
 cd /verif
 for P in $PROPS; do
-  VERIF_REPO=$WT PYTHONPATH=$WT ./vcheck $P > /tmp/seed/$NAME.$P.log 2>&1; RC=$?
+  VERIF_EVIDENCE_DIR=/tmp/seed/evidence/$NAME VERIF_REPLAY_DIR=/tmp/seed/replays/$NAME VERIF_REPO=$WT PYTHONPATH=$WT ./vcheck $P > /tmp/seed/$NAME.$P.log 2>&1; RC=$?
   echo "[$NAME] vcheck $P exit=$RC: $(grep -c '^VIOLATION' /tmp/seed/$NAME.$P.log) violations; $(tail -1 /tmp/seed/$NAME.$P.log)"
 done
 cd $WT && git checkout -q -- .
